@@ -5,6 +5,7 @@
 From Coq Require Import ZArith List Bool.
 From BV Require Import Lib.Cases Model.LaxSem Model.Restart Model.Pool
      Proofs.PoolJobs Proofs.PoolInv Proofs.PoolTick Proofs.PoolCor.
+From BV Require Gen.G_pool_shape.
 Import ListNotations.
 Open Scope Z_scope.
 
@@ -80,6 +81,18 @@ Theorem C04_terminate_job : forall s x p,
     value (tick_job s x) = Some (PTerminated (- exit_of s p)).
 Proof. exact tick_terminated. Qed.
 Print Assumptions C04_terminate_job.
+
+(* the grace-period loop visits every unresolved marked job, tests `now - lost_time > timeout`, the marker is written once, the gone-owner test and the Terminated/WorkerLost choice are as modelled
+   (facts computed from the AST of /repo/billiard/pool.py on this run; see translate/kernels/poolshape.py) *)
+Theorem C04_code_shape :
+  G_pool_shape.lost_test_strictly_greater = true /\
+  G_pool_shape.lost_loop_visits_every_job = true /\
+  G_pool_shape.lost_loop_selects_unready_marked = true /\
+  G_pool_shape.marker_written_once = true /\
+  G_pool_shape.gone_owner_test = true /\
+  G_pool_shape.terminated_only_for_terminate_job = true.
+Proof. repeat split; reflexivity. Qed.
+Print Assumptions C04_code_shape.
 
 (* non-vacuity: worker 0 dies with SIGSEGV while running job 0; job 1 on worker 1 is
    untouched; the loss is reported 10 s later with the real status *)
